@@ -1,0 +1,11 @@
+//go:build verif
+
+package stream
+
+// Exported wrappers for the C16 (stream-table JOIN) correspondence check. Add-only.
+
+// VerifEncodeKey is encodeKey: the table index key of a single value or a []any tuple.
+func VerifEncodeKey(key any) string { return encodeKey(key) }
+
+// VerifEncodeOne is encodeOne: the encoding of one key component.
+func VerifEncodeOne(v any) string { return encodeOne(v) }
